@@ -735,14 +735,19 @@ pub fn exec_real<K: KeyT, V: ValT, const N: usize>(
 ) -> Ret {
     match *op {
         MapOp::Insert { .. } => {
-            let r = m.insert(a.k.take().unwrap(), a.v.take().unwrap());
+            let (k_, v_) = (a.k.take().unwrap(), a.v.take().unwrap());
+            let r = crate::subj!(m.insert(k_, v_));
             ret_owned_v(r, s)
         }
         MapOp::InsertUnchecked { .. } => {
-            let r = unsafe { m.insert_unchecked(a.k.take().unwrap(), a.v.take().unwrap()) };
+            let (k_, v_) = (a.k.take().unwrap(), a.v.take().unwrap());
+            let r = crate::subj!(unsafe { m.insert_unchecked(k_, v_) });
             ret_owned_v(r, s)
         }
-        MapOp::InsertKV { .. } => match m.insert_key_value(a.k.take().unwrap(), a.v.take().unwrap()) {
+        MapOp::InsertKV { .. } => match {
+            let (k_, v_) = (a.k.take().unwrap(), a.v.take().unwrap());
+            crate::subj!(m.insert_key_value(k_, v_))
+        } {
             Some((k, v)) => {
                 let r = vec![F::K(k.kd()), F::V(v.vd())];
                 s.held_k.push(k);
@@ -751,7 +756,10 @@ pub fn exec_real<K: KeyT, V: ValT, const N: usize>(
             }
             None => vec![F::None],
         },
-        MapOp::CheckedInsert { .. } => match m.checked_insert(a.k.take().unwrap(), a.v.take().unwrap()) {
+        MapOp::CheckedInsert { .. } => match {
+            let (k_, v_) = (a.k.take().unwrap(), a.v.take().unwrap());
+            crate::subj!(m.checked_insert(k_, v_))
+        } {
             None => vec![F::None],
             Some(None) => vec![F::B(true), F::None],
             Some(Some(v)) => {
@@ -781,32 +789,34 @@ pub fn exec_real<K: KeyT, V: ValT, const N: usize>(
             let mut calls = 0u32;
             let mut items = Vec::new();
             let mut refs = Vec::new();
-            m.retain(|k, v| {
-                pl::tick(pl::Cb::Pred);
-                calls += 1;
-                let kd = k.kd();
-                let vd = v.vd();
-                refs.push((k as *const K as usize, std::mem::size_of::<K>()));
-                refs.push((v as *const V as usize, std::mem::size_of::<V>()));
-                items.push((Some(kd), vd));
-                if mutate {
-                    v.set((vd.v + 1) % nv);
-                }
-                keep & (1 << kd.k) != 0
-            });
+            crate::subj!(m.retain(|k, v| {
+                crate::subject::pause(|| {
+                    pl::tick(pl::Cb::Pred);
+                    calls += 1;
+                    let kd = k.kd();
+                    let vd = v.vd();
+                    refs.push((k as *const K as usize, std::mem::size_of::<K>()));
+                    refs.push((v as *const V as usize, std::mem::size_of::<V>()));
+                    items.push((Some(kd), vd));
+                    if mutate {
+                        v.set((vd.v + 1) % nv);
+                    }
+                    keep & (1 << kd.k) != 0
+                })
+            }));
             s.calls = calls;
             s.items = items;
             s.refs.extend(refs);
             vec![]
         }
         MapOp::Clear => {
-            m.clear();
+            crate::subj!(m.clear());
             vec![]
         }
         MapOp::Drain { take, forget } => {
-            let mut d = m.drain();
+            let mut d = crate::subj!(m.drain());
             for _ in 0..take {
-                match d.next() {
+                match crate::subj!(d.next()) {
                     Some((k, v)) => {
                         s.items.push((Some(k.kd()), v.vd()));
                         s.held_k.push(k);
@@ -818,12 +828,13 @@ pub fn exec_real<K: KeyT, V: ValT, const N: usize>(
             if forget {
                 std::mem::forget(d);
             } else {
-                drop(d);
+                crate::subj!(drop(d));
             }
             vec![]
         }
         MapOp::IterMutWrite { v } => {
-            for (k, val) in m.iter_mut() {
+            let mut it = crate::subj!(m.iter_mut());
+            while let Some((k, val)) = crate::subj!(it.next()) {
                 s.items.push((Some(k.kd()), val.vd()));
                 s.refs.push((k as *const K as usize, std::mem::size_of::<K>()));
                 s.refs.push((val as *const V as usize, std::mem::size_of::<V>()));
@@ -832,7 +843,8 @@ pub fn exec_real<K: KeyT, V: ValT, const N: usize>(
             vec![]
         }
         MapOp::ValuesMutWrite { v } => {
-            for val in m.values_mut() {
+            let mut it = crate::subj!(m.values_mut());
+            while let Some(val) = crate::subj!(it.next()) {
                 s.items.push((None, val.vd()));
                 s.refs.push((val as *const V as usize, std::mem::size_of::<V>()));
                 val.set(v);
@@ -853,10 +865,10 @@ fn exec_lookup<K: KeyT + Borrow<QQ>, V: ValT, QQ: ?Sized + Eq, const N: usize>(
 ) -> Ret {
     match *op {
         MapOp::Remove { .. } => {
-            let r = m.remove::<QQ>(q);
+            let r = crate::subj!(m.remove::<QQ>(q));
             ret_owned_v(r, s)
         }
-        MapOp::RemoveEntry { .. } => match m.remove_entry::<QQ>(q) {
+        MapOp::RemoveEntry { .. } => match crate::subj!(m.remove_entry::<QQ>(q)) {
             Some((k, v)) => {
                 let r = vec![F::K(k.kd()), F::V(v.vd())];
                 s.held_k.push(k);
@@ -865,14 +877,14 @@ fn exec_lookup<K: KeyT + Borrow<QQ>, V: ValT, QQ: ?Sized + Eq, const N: usize>(
             }
             None => vec![F::None],
         },
-        MapOp::Get { .. } => match m.get::<QQ>(q) {
+        MapOp::Get { .. } => match crate::subj!(m.get::<QQ>(q)) {
             Some(v) => {
                 s.ref_v(v);
                 vec![F::V(v.vd())]
             }
             None => vec![F::None],
         },
-        MapOp::GetKeyValue { .. } => match m.get_key_value::<QQ>(q) {
+        MapOp::GetKeyValue { .. } => match crate::subj!(m.get_key_value::<QQ>(q)) {
             Some((k, v)) => {
                 s.ref_k(k);
                 s.ref_v(v);
@@ -880,13 +892,16 @@ fn exec_lookup<K: KeyT + Borrow<QQ>, V: ValT, QQ: ?Sized + Eq, const N: usize>(
             }
             None => vec![F::None],
         },
-        MapOp::ContainsKey { .. } => vec![F::B(m.contains_key::<QQ>(q))],
+        MapOp::ContainsKey { .. } => {
+            let r = crate::subj!(m.contains_key::<QQ>(q));
+            vec![F::B(r)]
+        }
         MapOp::Index { .. } => {
-            let r = <Map<K, V, N> as std::ops::Index<&QQ>>::index(m, q);
+            let r = crate::subj!(<Map<K, V, N> as std::ops::Index<&QQ>>::index(m, q));
             s.ref_v(r);
             vec![F::V(r.vd())]
         }
-        MapOp::GetMutWrite { .. } => match m.get_mut::<QQ>(q) {
+        MapOp::GetMutWrite { .. } => match crate::subj!(m.get_mut::<QQ>(q)) {
             Some(r) => {
                 let old = r.vd();
                 s.refs.push((r as *mut V as usize, std::mem::size_of::<V>()));
@@ -896,7 +911,7 @@ fn exec_lookup<K: KeyT + Borrow<QQ>, V: ValT, QQ: ?Sized + Eq, const N: usize>(
             None => vec![F::None],
         },
         MapOp::IndexMutWrite { .. } => {
-            let r = <Map<K, V, N> as std::ops::IndexMut<&QQ>>::index_mut(m, q);
+            let r = crate::subj!(<Map<K, V, N> as std::ops::IndexMut<&QQ>>::index_mut(m, q));
             let old = r.vd();
             s.refs.push((r as *mut V as usize, std::mem::size_of::<V>()));
             *r = newv.unwrap();
@@ -942,13 +957,14 @@ fn exec_entry<K: KeyT, V: ValT, const N: usize>(
     }
     match chain {
         EChain::Key => {
-            let e = m.entry(key);
+            let e = crate::subj!(m.entry(key));
             let occ = matches!(e, Entry::Occupied(_));
             let d = e.key().kd();
             vec![F::B(occ), F::K(d)]
         }
         EChain::OrInsert => {
-            let r = m.entry(key).or_insert(a.v.take().unwrap());
+            let v_ = a.v.take().unwrap();
+            let r = crate::subj!(m.entry(key).or_insert(v_));
             let d = r.vd();
             let addr = r as *mut V as usize;
             same_slot!(addr);
@@ -958,11 +974,13 @@ fn exec_entry<K: KeyT, V: ValT, const N: usize>(
             let val = a.v.take().unwrap();
             let mut calls = 0u32;
             let res = catch_unwind(AssertUnwindSafe(|| {
-                let r = m.entry(key).or_insert_with(|| {
-                    pl::tick(pl::Cb::Closure);
-                    calls += 1;
+                let r = crate::subj!(m.entry(key).or_insert_with(|| {
+                    crate::subject::pause(|| {
+                        pl::tick(pl::Cb::Closure);
+                        calls += 1;
+                    });
                     val
-                });
+                }));
                 (r.vd(), r as *mut V as usize)
             }));
             s.calls = calls;
@@ -979,12 +997,14 @@ fn exec_entry<K: KeyT, V: ValT, const N: usize>(
             let mut calls = 0u32;
             let mut seen = None;
             let res = catch_unwind(AssertUnwindSafe(|| {
-                let r = m.entry(key).or_insert_with_key(|k| {
-                    pl::tick(pl::Cb::Closure);
-                    calls += 1;
-                    seen = Some(k.kd());
+                let r = crate::subj!(m.entry(key).or_insert_with_key(|k| {
+                    crate::subject::pause(|| {
+                        pl::tick(pl::Cb::Closure);
+                        calls += 1;
+                        seen = Some(k.kd());
+                    });
                     val
-                });
+                }));
                 (r.vd(), r as *mut V as usize)
             }));
             s.calls = calls;
@@ -1002,7 +1022,7 @@ fn exec_entry<K: KeyT, V: ValT, const N: usize>(
             }
         }
         EChain::OrDefault => {
-            let r = m.entry(key).or_default();
+            let r = crate::subj!(m.entry(key).or_default());
             let d = r.vd();
             let addr = r as *mut V as usize;
             same_slot!(addr);
@@ -1013,14 +1033,16 @@ fn exec_entry<K: KeyT, V: ValT, const N: usize>(
             let v2 = a.v2.take().unwrap();
             let mut calls = 0u32;
             let res = catch_unwind(AssertUnwindSafe(|| {
-                let r = m
+                let r = crate::subj!(m
                     .entry(key)
                     .and_modify(|x| {
-                        pl::tick(pl::Cb::Closure);
-                        calls += 1;
+                        crate::subject::pause(|| {
+                            pl::tick(pl::Cb::Closure);
+                            calls += 1;
+                        });
                         *x = v1;
                     })
-                    .or_insert(v2);
+                    .or_insert(v2));
                 (r.vd(), r as *mut V as usize)
             }));
             s.calls = calls;
@@ -1038,21 +1060,21 @@ fn exec_entry<K: KeyT, V: ValT, const N: usize>(
         | EChain::OInsert
         | EChain::ORemove
         | EChain::ORemoveEntry
-        | EChain::OIntoMutWrite => match m.entry(key) {
+        | EChain::OIntoMutWrite => match crate::subj!(m.entry(key)) {
             Entry::Vacant(_) => vec![F::B(false)],
             Entry::Occupied(mut e) => match chain {
                 EChain::OKey => {
-                    let k = e.key();
+                    let k = crate::subj!(e.key());
                     s.ref_k(k);
                     vec![F::B(true), F::K(k.kd())]
                 }
                 EChain::OGet => {
-                    let v = e.get();
+                    let v = crate::subj!(e.get());
                     s.ref_v(v);
                     vec![F::B(true), F::V(v.vd())]
                 }
                 EChain::OGetMutWrite => {
-                    let r = e.get_mut();
+                    let r = crate::subj!(e.get_mut());
                     let old = r.vd();
                     let addr = r as *mut V as usize;
                     *r = a.v.take().unwrap();
@@ -1061,7 +1083,7 @@ fn exec_entry<K: KeyT, V: ValT, const N: usize>(
                     vec![F::B(true), F::V(old)]
                 }
                 EChain::OIntoMutWrite => {
-                    let r = e.into_mut();
+                    let r = crate::subj!(e.into_mut());
                     let old = r.vd();
                     let addr = r as *mut V as usize;
                     *r = a.v.take().unwrap();
@@ -1069,19 +1091,20 @@ fn exec_entry<K: KeyT, V: ValT, const N: usize>(
                     vec![F::B(true), F::V(old)]
                 }
                 EChain::OInsert => {
-                    let old = e.insert(a.v.take().unwrap());
+                    let v_ = a.v.take().unwrap();
+                    let old = crate::subj!(e.insert(v_));
                     let d = old.vd();
                     s.held_v.push(old);
                     vec![F::B(true), F::V(d)]
                 }
                 EChain::ORemove => {
-                    let old = e.remove();
+                    let old = crate::subj!(e.remove());
                     let d = old.vd();
                     s.held_v.push(old);
                     vec![F::B(true), F::V(d)]
                 }
                 EChain::ORemoveEntry => {
-                    let (k, v) = e.remove_entry();
+                    let (k, v) = crate::subj!(e.remove_entry());
                     let r = vec![F::B(true), F::K(k.kd()), F::V(v.vd())];
                     s.held_k.push(k);
                     s.held_v.push(v);
@@ -1090,18 +1113,22 @@ fn exec_entry<K: KeyT, V: ValT, const N: usize>(
                 _ => unreachable!(),
             },
         },
-        EChain::VKey | EChain::VIntoKey | EChain::VInsert => match m.entry(key) {
+        EChain::VKey | EChain::VIntoKey | EChain::VInsert => match crate::subj!(m.entry(key)) {
             Entry::Occupied(_) => vec![F::B(true)],
             Entry::Vacant(e) => match chain {
-                EChain::VKey => vec![F::B(false), F::K(e.key().kd())],
+                EChain::VKey => {
+                    let k = crate::subj!(e.key());
+                    vec![F::B(false), F::K(k.kd())]
+                }
                 EChain::VIntoKey => {
-                    let k = e.into_key();
+                    let k = crate::subj!(e.into_key());
                     let d = k.kd();
                     s.held_k.push(k);
                     vec![F::B(false), F::K(d)]
                 }
                 EChain::VInsert => {
-                    let r = e.insert(a.v.take().unwrap());
+                    let v_ = a.v.take().unwrap();
+                    let r = crate::subj!(e.insert(v_));
                     let d = r.vd();
                     let addr = r as *mut V as usize;
                     same_slot!(addr);
@@ -1365,10 +1392,12 @@ impl<K: KeyT, V: ValT, const N: usize> MapSys<K, V, N> {
         let mut side: Side<K, V> = Side::default();
         let range = bx.range();
         let nv = self.nv;
+        crate::subject::reset();
         let res = {
             let m = &mut bx.c;
             catch_unwind(AssertUnwindSafe(|| exec_real(m, op, &mut a, &mut side, nv)))
         };
+        let allocs = crate::subject::take();
         drop(a);
         let (got, panicked) = match res {
             Ok(r) => (r, false),
@@ -1466,6 +1495,10 @@ impl<K: KeyT, V: ValT, const N: usize> MapSys<K, V, N> {
             cx.check(C06, *addr >= range.0 && addr + sz <= range.1, || {
                 format!("a reference handed out ({addr:#x}) lies outside the container value {range:x?}")
             });
+        }
+        // no heap: with non-allocating element types the call made no allocator call
+        if crate::subject::installed() && K::PLAIN && V::PLAIN && !panicked {
+            cx.check(C06, allocs == 0, || format!("the call made {allocs} allocator call(s)"));
         }
         // 3. nothing outside the container was written
         cx.check(C03 | C02 | (pm & C18), bx.intact(), || "a canary next to the container was overwritten".to_string());
